@@ -96,7 +96,7 @@ def xswitch(val, *args):
     if isinstance(val, bool):
         condition = lambda x: val is x
     else:
-        condition = lambda x: val == x
+        condition = lambda x: not isinstance(x, bool) and val == x
     for k, v in zip(args[::2], args[1::2]):
         if isinstance(k, XlError):
             return k
